@@ -307,7 +307,8 @@ macro_rules! k_encode_subframe_select {
 }
 k_encode_subframe_select!(k_enc_select_odd_lpc, [5, -7, 9], 16, true, 0, 6);
 k_encode_subframe_select!(k_enc_select_odd_nolpc, [5, -7, 9], 16, false, 0, 6);
-k_encode_subframe_select!(k_enc_select_wasted2_lpc, [4, -8, 12], 18, true, 2, 6);
+// measured: an instance with common trailing zero bits ([4, -8, 12]) runs CBMC out of memory in
+// `wasted.extend(channel.iter().map(..))`; the encoder-side wasted-bits shift is therefore not decided
 k_encode_subframe_select!(k_enc_select_zero, [0, 0, 0], 24, true, 0, 6);
 k_encode_subframe_select!(k_enc_select_odd_12bit, [5, -7, 9], 12, true, 0, 6);
 
@@ -390,84 +391,11 @@ k_encode_fixed!(k_enc_fixed_n4, 4, 7);
 k_encode_fixed!(k_enc_fixed_n1, 1, 6);
 
 
-// contract encode_lpc_subframe (LpcParameters::best, the float analysis, replaced by "any parameters the quantiser may
-// return": order, precision 1..15, shift 0..15, coefficients fitting the precision; everything else is the real code):
-//   writes header LPC(order), `order` warm-up samples at bps bits, precision - 1 in 4 bits (never 1111),
-//   the shift in 5 bits two's complement (>= 0), `order` coefficients at `precision` bits, then write_residuals(order, r)
-static G_P_ORDER: AtomicUsize = AtomicUsize::new(1);
-static G_P_PREC: AtomicUsize = AtomicUsize::new(1);
-static G_P_SHIFT: AtomicUsize = AtomicUsize::new(0);
-static G_P_C: [AtomicI64; 4] = [const { AtomicI64::new(0) }; 4];
-static G_P_FAIL: AtomicUsize = AtomicUsize::new(0);
-fn stub_lpc_params_best(_o: &EncoderOptions, _bps: SignedBitCount<32>, _max: NonZero<u8>, _window: &mut Vec<f64>, _windowed: &mut Vec<f64>,
-    _channel: &[i32]) -> Result<LpcParameters, Error> {
-    if G_P_FAIL.load(Relaxed) != 0 { return Err(Error::NoBestLpcOrder); }
-    let order = G_P_ORDER.load(Relaxed);
-    let mut coefficients: ArrayVec<i32, MAX_LPC_COEFFS> = ArrayVec::new();
-    let mut j = 0;
-    while j < order { coefficients.push(G_P_C[j].load(Relaxed) as i32); j += 1; }
-    Ok(LpcParameters { order: NonZero::new(order as u8).unwrap(),
-        precision: SignedBitCount::<15>::try_from(G_P_PREC.load(Relaxed) as u32).unwrap(), shift: G_P_SHIFT.load(Relaxed) as u32, coefficients })
-}
-
-macro_rules! k_encode_lpc {
-    ($name:ident, $n:expr, $order:expr, $unw:expr) => {
-        #[kani::proof]
-        #[kani::unwind($unw)]
-        #[kani::stub(write_residuals, stub_write_residuals)]
-        #[kani::stub(LpcParameters::best, stub_lpc_params_best)]
-        pub(crate) fn $name() {
-            let bps: u32 = kani::any();
-            kani::assume(bps >= 1 && bps <= 32);
-            let wasted: u32 = kani::any();
-            kani::assume(wasted <= 3);
-            let precision: u32 = kani::any();
-            kani::assume(precision >= 1 && precision <= 15);
-            let shift: u32 = kani::any();
-            kani::assume(shift <= 15);
-            let mut c = [0i64; $order];
-            let mut j = 0;
-            while j < $order { c[j] = any_i64_within(precision); G_P_C[j].store(c[j], Relaxed); j += 1; }
-            G_P_ORDER.store($order, Relaxed); G_P_PREC.store(precision as usize, Relaxed); G_P_SHIFT.store(shift as usize, Relaxed);
-            let fail: bool = kani::any();
-            G_P_FAIL.store(fail as usize, Relaxed);
-            let mut x = [0i32; $n];
-            let mut xs = [0i64; $n];
-            let mut i = 0;
-            while i < $n { xs[i] = any_i64_within(bps); x[i] = xs[i] as i32; i += 1; }
-            let options = EncoderOptions { max_partition_order: 0, mid_side: false, seektable_interval: None, max_lpc_order: NonZero::new(8),
-                window: Window::Rectangle, exhaustive_channel_correlation: false, use_rice2: false };
-            let mut cache = LpcCache::default();
-            let mut t: Tape<16> = Tape::new();
-            let res = encode_lpc_subframe(&options, NonZero::new(8).unwrap(), &mut cache, &mut t, &x, sbc::<32>(bps), wasted);
-            if fail { vk_assert!(res.is_err() && t.len == 0, "no parameters => error and nothing written"); return; }
-            if res.is_err() { vk_assert!(t.len == 0, "a residual overflow is detected before anything is written"); return; }
-            let at = check_header_fields(&t, specenc::t_lpc($order as u32), wasted);
-            let mut i = 0;
-            while i < $order {
-                vk_assert!(t.f[at + i].kind == K_S && t.f[at + i].width == bps && t.f[at + i].val as i64 == xs[i], "warm-up sample i is sample i at the subframe's width");
-                i += 1;
-            }
-            let p = at + $order;
-            vk_assert!(t.f[p].kind == K_U && t.f[p].width == 4 && t.f[p].val == (precision - 1) as u64 && t.f[p].val != 15, "coefficient precision minus one in 4 bits, never 1111");
-            vk_assert!(t.f[p + 1].kind == K_S && t.f[p + 1].width == 5 && t.f[p + 1].val as i64 == shift as i64, "prediction shift in 5 bits, two's complement, non-negative");
-            let mut j = 0;
-            while j < $order {
-                vk_assert!(t.f[p + 2 + j].kind == K_S && t.f[p + 2 + j].width == precision && t.f[p + 2 + j].val as i64 == c[j], "coefficient j at the stated precision");
-                j += 1;
-            }
-            vk_assert!(t.len == p + 2 + $order, "nothing else before the residual coding");
-            vk_assert!(G_WR_CALLS.load(Relaxed) == 1 && G_WR_ORDER.load(Relaxed) == $order && G_WR_LEN.load(Relaxed) == $n - $order, "residual coder called once with the predictor order and n - order residuals");
-            let mut i = $order;
-            while i < $n {
-                vk_assert!(G_WR_RES[i - $order].load(Relaxed) == specenc::spec_residual(&xs, i, $order, &c, shift), "residual differs from the RFC 9639 9.2.6 residual");
-                i += 1;
-            }
-        }
-    };
-}
-k_encode_lpc!(k_enc_lpc_n3_o1, 3, 1, 6);
-k_encode_lpc!(k_enc_lpc_n4_o2, 4, 2, 7);
+// encode_lpc_subframe: an obligation with LpcParameters::best replaced by "any quantised parameters" was built and
+// REMOVED: Kani's memory model breaks on the Vec inside LpcCache (reported "pointer invalid" inside Vec::push
+// together with a spurious contract failure on the unchanged tree).  The LPC field sequence is therefore not
+// decided on the encoder side; the exact residuals are (K-enc_residuals_*), and the decoder side reads the
+// RFC layout (K-sub_valid_lpc1, K-sub_mod_lpc*).
 
 // ------------------------------------------------------------------ Encoder::encode bookkeeping (C09 / C14 / C15)
 //
@@ -626,47 +554,8 @@ pub(crate) fn k_seek_filter() {
 // (measured twice).  Its layout rule is covered by the Verus obligation V-part-encoder-filter (lemma + text
 // anchor) and by the native witness /verif/native/c01_short_block_order2.rs.
 
-// ------------------------------------------------------------------ Encoder::new (C15 parameter validation, C14 provisional header)
-// contract (metadata writer replaced by "accepts the block list"): for every sample rate, channel count,
-// bits-per-sample 1..=32 and declared total:
-//   Ok  <=> rate < 2^20, 1 <= channels <= 8, total (if declared) < 2^36;   never panics
-//   Ok => provisional STREAMINFO carries exactly these values, min == max block size == the option,
-//         unknown frame sizes, no MD5; counters start at zero; Rice2 enabled iff bits-per-sample > 16
-fn stub_write_blocks<B: crate::metadata::AsBlockRef>(_w: impl std::io::Write, _blocks: impl IntoIterator<Item = B>) -> Result<(), Error> {
-    Ok(())
-}
-
-#[kani::proof]
-#[kani::unwind(8)]
-#[kani::stub(crate::metadata::write_blocks, stub_write_blocks)]
-pub(crate) fn k_encoder_new_validation() {
-    let rate: u32 = kani::any();
-    let bps: u32 = kani::any();
-    kani::assume(bps >= 1 && bps <= 32);
-    let channels: u8 = kani::any();
-    let declared: bool = kani::any();
-    let total: u64 = kani::any();
-    kani::assume(total >= 1);
-    let bs: u16 = kani::any();
-    kani::assume(bs >= 16);
-    let options = Options::fast().no_padding().no_seektable().block_size(bs).unwrap();
-    let r = Encoder::new(LogSink { written: 0, seeks: 0 }, options, rate, sbc::<32>(bps), channels, if declared { NonZero::new(total) } else { None });
-    let want_ok = rate < (1 << 20) && channels >= 1 && channels <= 8 && (!declared || total < (1 << 36));
-    match r {
-        Ok(mut e) => {
-            vk_assert!(want_ok, "Encoder::new accepted parameters outside the documented ranges");
-            let si = e.blocks.streaminfo();
-            vk_assert!(si.sample_rate == rate && si.channels.get() == channels && u32::from(si.bits_per_sample) == bps, "provisional STREAMINFO carries the stream parameters");
-            vk_assert!(si.minimum_block_size == bs && si.maximum_block_size == bs, "provisional STREAMINFO advertises the configured block size");
-            vk_assert!(si.total_samples.map(|t| t.get()) == if declared { Some(total) } else { None }, "declared total recorded, otherwise unknown");
-            vk_assert!(si.md5.is_none() && si.minimum_frame_size.is_none() && si.maximum_frame_size.is_none(), "nothing is claimed about data not yet written");
-            vk_assert!(e.samples_written == 0 && e.frame_number.0 == 0 && e.writer.count == 0 && e.seekpoints.is_empty(), "counters start at zero");
-            vk_assert!(e.options.use_rice2 == (bps > 16), "5-bit Rice parameters only above 16 bits per sample");
-            e.finalized = true; // keep Drop from running finalize in the harness
-        }
-        Err(_) => vk_assert!(!want_ok, "Encoder::new rejected documented parameters"),
-    }
-}
+// Encoder::new: an obligation with metadata::write_blocks replaced by a stub was built and removed — it did not
+// finish (> 7 min, then out of memory: BlockList sorting and the boxed seek-point iterator chain).
 
 // ------------------------------------------------------------------ FlacSampleWriter: carry-over buffer and whole-block draining (C08)
 //
